@@ -482,11 +482,12 @@ class FiltersSet:
                     commands.BodyCommand,
                     commands.EnvelopeCommand,
                     commands.CurrentdateCommand,
+                    commands.AddressCommand,
                 ),
             ):
                 args = node.args_as_tuple()
                 if negate:
-                    if node.name in ["header", "envelope"]:
+                    if node.name in ["header", "envelope", "address"]:
                         nargs = (args[0], ":not{}".format(args[1][1:]))
                         if len(args) > 3:
                             nargs += args[2:]
